@@ -312,23 +312,42 @@ def parseEmf (line : String) : EmfObs :=
 
 def parseStretch (line : String) : StretchObs :=
   let m := kv line
-  { k := lookN m "k", crashed := lookN m "crashed", queued := lookN m "queued", served := lookN m "served", fresh := lookN m "fresh" }
+  let script := (look m "script").toList
+  { k := lookN m "k", exhausted := script.isEmpty || script.any (fun c => c == 'E' || c == 'N'),
+    crashed := lookN m "crashed", queued := lookN m "queued", served := lookN m "served", fresh := lookN m "fresh" }
 
-/-- the back-off goroutine of the IMPLEMENTATION against `Netpoll.Server.Retry` on the same script (`k-1` failed
-    retries, then a success): the gap in front of its j-th accept is at least the model's delay (a sleep may take
-    longer, never shorter), and it made exactly the accepts the model makes up to the first success.
-    `gaps` = milliseconds between consecutive `Accept` calls, the first one (OnRead's) excluded. -/
+/-- one letter of the harness's `results=` (what an `Accept` call answered) as the model's accept result:
+    E N = out-of-descriptor errors (`isOutOfFdErr`), C = connection, A = EAGAIN, X and the lower-case letters
+    (ECONNABORTED, EINTR, EPROTO, …) = any other error (none of their texts contains "closed") -/
+def accResOf (c : Char) : Option AccRes :=
+  if c == 'E' || c == 'N' then some .emfile
+  else if c == 'C' then some (.conn 0)
+  else if c == 'A' then some .eagain
+  else if c == 'X' || c.isLower then some (.err false)
+  else none
+
+/-- the IMPLEMENTATION (the poller's `OnRead` and the back-off goroutine it starts) against `Netpoll.Server.Retry.episode`
+    on the same script of accept results: the gap in front of its j-th accept is at least the model's delay (a sleep
+    may take longer, never shorter), and it made at least the accepts the model makes up to the first connection
+    accepted after the first call.  `gaps` = milliseconds between consecutive `Accept` calls, the first one excluded. -/
 def stretchModelDiff (line : String) : Option String :=
   let m := kv line
-  let k := lookN m "k"
   let gaps := ((look m "gaps").splitOn ",").filterMap fun x => x.toNat?
-  let script := List.replicate (k - 1) AccRes.emfile ++ [AccRes.conn 0]
-  let want := Retry.delays .succLt Netpoll.Gen.Server.server_OnRead_retryTable 0 script
+  let all := (look m "results").toList.filterMap accResOf
+  -- up to and including the first connection that is not the answer to the very first call
+  let rec cut (first : Bool) : List AccRes → List AccRes
+    | [] => []
+    | r :: rs => match r with
+      | .conn _ => if first then r :: cut false rs else [r]
+      | _ => r :: cut false rs
+  let script := cut true all
+  let want := (Retry.episodeDelays .succLt Netpoll.Gen.Server.server_OnRead_retryTable .polling script).drop 1
   if lookN m "crashed" != 0 then none
-  else if gaps.length < want.length then some s!"goroutine made {gaps.length} accepts up to the first success, model {want.length}"
+  else if (look m "results").isEmpty then none
+  else if gaps.length < want.length then some s!"{gaps.length} accepts after the first up to the first connection, model {want.length}"
   else
     match ((gaps.zip want).zipIdx).find? (fun ((g, d), _) => g + 1 < d) with   -- 1 ms: the harness truncates
-    | some ((g, d), j) => some s!"retry {j}: implementation slept {g} ms, model {d} ms"
+    | some ((g, d), j) => some s!"accept {j + 1}: implementation paused {g} ms, model at least {d} ms"
     | none => none
 
 def verdict (fails : List String) : String :=
